@@ -1,7 +1,7 @@
 (** C13 - correspondence (model at binary64 vs linfa-svm, bit for bit) and property oracle
     (exact rational KKT / feasibility / decision-value checkers on the implementation's output). *)
 From Coq Require Import List NArith ZArith QArith Bool Floats.
-From LinfaVerif Require Export Common.Num Common.NdSum Common.Run Common.QF Common.LDL C13.Model C13.Check.
+From LinfaVerif Require Export Common.Num Common.NdSum Common.Run Common.QF Common.LDL C13.Model C13.Check C13.PsdCert.
 Import ListNotations.
 
 Definition o64 := B64_ops.
@@ -39,7 +39,11 @@ Record case := {
   c_tolk : float;                  (* KKT tolerance to use (harness: function of the solver eps) *)
   c_toleq : float;                 (* tolerance of the equality constraint *)
   c_told : float;                  (* tolerance of the decision values *)
-  c_tolpsd : float                 (* shift delta of the positive semi-definiteness certificate of K *)
+  c_tolpsd : float;                (* shift delta of the positive semi-definiteness certificate of K *)
+  c_tws : list float;              (* weighted_sum(x_i) of every training sample *)
+  c_tout : list float;             (* regression: predict(x_i) of every training sample, else [] *)
+  c_tlab : list bool;              (* classification without calibration / one-class: predict(x_i) of every training sample, else [] *)
+  c_L : list (list float)          (* harness: floating-point Cholesky factor of K + delta/2 I, a hint for [psd_cert]; [] above [psd_limit] *)
 }.
 
 Definition lorl (l : list N) : N := fold_left N.lor l 0%N.
@@ -112,6 +116,10 @@ Definition sv_kvals (c : case) (kq : list float) : list float :=
 Definition model_ws (c : case) (q kq : list float) : float :=
   if is_linear c then weighted_sum_linear o64 (c_w c) q
   else weighted_sum_sv o64 eps64 (sv_kvals c kq) (c_alpha c).
+
+(* the implementation published an explicit hyperplane instead of support vectors *)
+Definition stores_hyperplane (c : case) : bool :=
+  match c_w c, c_sv c with _ :: _, [] => true | _, _ => false end.
 
 Definition is_regression (c : case) : bool :=
   match c_kind c with EpsSvr | NuSvr => true | _ => false end.
@@ -205,29 +213,43 @@ Definition oracle_solution (c : case) : N :=
             flag (svr_kkt K (qv (c_yr c)) cq p a rho e) 4]
   end).
 
+(* sizes up to which the positive semi-definiteness certificate is evaluated (the harness sends no hint above it) *)
+Definition psd_limit : nat := 64.
+
 Definition oracle_case (c : case) : N :=
   if c_panic c then 0%N (* reported by the harness with code 512 *) else
   let a := qv (c_alpha c) in
   let rho := f64_Q (c_rho c) in
   let decs := if is_regression c then c_dec c else map (fun w => PrimFloat.sub w (c_rho c)) (c_ws c) in
+  (* the same for every training sample *)
+  let tdecs := if is_regression c then c_tout c else map (fun w => PrimFloat.sub w (c_rho c)) (c_tws c) in
   let fin := all_finite (c_alpha c) && is_finite (c_rho c) && forallb all_finite (c_K c)
-             && forallb all_finite (c_QK c) && all_finite decs && all_finite (c_ws c) in
+             && forallb all_finite (c_QK c) && all_finite decs && all_finite (c_ws c)
+             && all_finite tdecs && all_finite (c_tws c) in
   if negb fin then 256%N else
   lorl [oracle_solution c;
    flag (Nat.eqb (length (c_alpha c)) (length (c_X c))
            && symb (length (c_X c)) (qm (c_K c))) 256;
-   (* K + delta I has an exact LDL^T certificate of positive semi-definiteness *)
-   flag (if Nat.ltb 8 (length (c_X c)) then true (* exact elimination on float data is affordable only for small n *)
-         else ldl_psd_shift (length (c_X c)) (qm (c_K c)) (Qopp (f64_Q (c_tolpsd c)))) 16384
-   (* the decision value is sum_i alpha_i K(x_i, x) - rho of the published coefficients *);
-   flag (all2 (fun kq d => decision_close (qv kq) a rho (f64_Q d) (f64_Q (c_told c))) (c_QK c) decs) 8
+   (* K + delta I is positive semi-definite: a-posteriori certificate (C13/PsdCert.v) K + delta I - L L^T
+      diagonally dominant in exact integer arithmetic, L the harness's approximate Cholesky factor *)
+   flag (if Nat.ltb psd_limit (length (c_X c)) then true
+         else psd_cert (length (c_X c)) (qm (c_K c)) (qm (c_L c)) (f64_Q (c_tolpsd c))) 16384
+   (* the decision value is sum_i alpha_i K(x_i, x) - rho of the published coefficients: query samples and
+      every training sample (row i of the kernel matrix holds K(x_j, x_i)) *);
+   flag (all2 (fun kq d => decision_close (qv kq) a rho (f64_Q d) (f64_Q (c_told c))) (c_QK c) decs
+         && all2 (fun kq d => decision_close (qv kq) a rho (f64_Q d) (f64_Q (c_told c))) (c_K c) tdecs) 8
    (* labels are the sign of the decision value *);
    flag (is_regression c ||
-           all2 (fun d (l : bool) => Bool.eqb (PrimFloat.leb 0%float d) l) decs (c_lab c)) 16
+           (all2 (fun d (l : bool) => Bool.eqb (PrimFloat.leb 0%float d) l) decs (c_lab c)
+            && match c_tlab c with
+               | [] => true
+               | tl => all2 (fun d (l : bool) => Bool.eqb (PrimFloat.leb 0%float d) l) tdecs tl
+               end)) 16
    (* the number of support vectors is the number of non-zero coefficients *);
    flag (N.eqb (N.of_nat (count_nonzero (c_alpha c))) (c_nsupport c)) 32
-   (* the stored support vectors are the samples with non-zero coefficient, in order *);
-   flag (is_linear c ||
+   (* when support vectors are stored, they are the samples with non-zero coefficient, in order (an explicit
+      hyperplane published instead is judged by the decision values, bit 8) *);
+   flag (is_linear c || stores_hyperplane c ||
            mat_eqb (map fst (filter (fun e => nonzero (snd e)) (combine (c_X c) (c_alpha c))))
                    (c_sv c)) 64
    (* calibrated probabilities lie in [0,1] and are a monotone function of the decision value *);
